@@ -242,6 +242,9 @@ type Env struct {
 	// PartlyRead: the reader handed to PushBlob is a seekable in-memory reader of which a prefix (some
 	// header the caller looked at) has already been consumed; the blob is what is left to read.
 	PartlyRead bool
+	// OpaqueReader: the reader handed to PushBlob is nothing but an io.Reader (a pipe, a file, a
+	// decompressor): no length to ask for, no seeking, and it hands out its bytes in small pieces.
+	OpaqueReader bool
 	// PeekID makes composite uploads ask the writer for its ID at every point where the
 	// contract makes it valid (before the first Write, after Close), not only when resuming.
 	PeekID bool
@@ -437,6 +440,9 @@ func (e *Env) Exec(op *Op) *Outcome {
 			whole := bytes.NewReader(append([]byte("HEADER THE CALLER ALREADY READ;"), buf...))
 			io.CopyN(io.Discard, whole, int64(whole.Len()-len(buf)))
 			src = whole
+		}
+		if e.OpaqueReader {
+			src = &opaqueReader{r: src, piece: 1 + len(buf)/3}
 		}
 		d, err := r.PushBlob(ctx, op.Repo, pd, src)
 		e.scribble(buf)
@@ -657,4 +663,17 @@ func Diff(a, b *Outcome, compareSize bool) (what, class string) {
 		}
 	}
 	return "", ""
+}
+
+// opaqueReader is an io.Reader and nothing else; it returns at most piece bytes per call.
+type opaqueReader struct {
+	r     io.Reader
+	piece int
+}
+
+func (o *opaqueReader) Read(p []byte) (int, error) {
+	if len(p) > o.piece {
+		p = p[:o.piece]
+	}
+	return o.r.Read(p)
 }
